@@ -83,7 +83,7 @@ def generate(seed, tier, batch):
     T = r.randint(1, 5 if not wide else 3)
     starts = [sum(N[:j]) for j in range(nb)]
     total = sum(N)
-    npar = r.randint(1, 4)
+    npar = r.randint(1, 4) if r.random() < 0.9 else r.randint(11, 13)  # more than ten arrays: names p10, p11 sort before p2
     params = []
     for k_ in range(npar):
         kind = r.random()
@@ -118,7 +118,12 @@ def generate(seed, tier, batch):
     # the leading mode of every band is measured, in band order, as the last commands of the bin
     for j in range(nb):
         ops.append({"op": "MeasureHomodyne", "p": [par(3.0)], "m": [starts[j]]})
-    script = {"N": N, "T": T, "params": params, "ops": ops, "tape": seed, "history": [], "kind": batch if batch != "loop-wide" else "loop",
+    foreign = None
+    if r.random() < 0.3:
+        # another time-domain program with a different band layout is built and run earlier in the same process
+        fN = [r.randint(1, 3) for _ in range(r.randint(1, 3))]
+        foreign = {"N": fN, "T": r.randint(1, 3), "measure_offset": r.randrange(2)}
+    script = {"N": N, "T": T, "params": params, "ops": ops, "tape": seed, "history": [], "kind": batch if batch != "loop-wide" else "loop", "foreign_tdm": foreign,
               "shift": "default" if (nb > 1 or r.random() < 0.6) else 1}
     if batch == "shift":
         # any integer shift (whole-register rotation): the joint state of the pulses is checked; the arrangement of the returned samples is
@@ -301,6 +306,8 @@ def execute(script, w):
         except Exception as ex:  # noqa
             w.violation("valid-program-accepted", "TDMProgram-construction", {"exc": type(ex).__name__, "msg": str(ex)[:300]}, feats)
             return
+        if script.get("foreign_tdm"):
+            run_foreign_tdm(script["foreign_tdm"], w, simenv, fallback)
         fp0 = program_fp(prog, with_ids=False)
         rolled0 = [(type(c.op).__name__, [str(x) for x in c.op.p], [r_.ind for r_ in c.reg]) for c in prog.circuit]
         reg0 = [(k_, v_.ind, v_.active) for k_, v_ in prog.reg_refs.items()]
@@ -469,6 +476,30 @@ def execute(script, w):
             w.probes["multi_band"] += 1
         if any(0.0 in p for p in script["params"]):
             w.probes["zero_parameter_in_array"] += 1
+
+
+def run_foreign_tdm(f, w, simenv, fallback):
+    """foreign session: its own TDM program (other bands, measuring another position of each band), run with its own outcomes"""
+    import strawberryfields as sf
+    from strawberryfields import ops as sfops
+
+    w.fault("foreign_activity:tdm_program")
+    N, T = f["N"], f["T"]
+    starts = [sum(N[:j]) for j in range(len(N))]
+    prog = sf.TDMProgram(N=N if len(N) > 1 else N[0])
+    arr = [[0.1 * (t + 1) for t in range(T)]]
+    saved = simenv.rng.handler
+    simenv.rng.handler = fallback
+    try:
+        with prog.context(*arr) as (p, q):
+            sfops.Sgate(p[0], 0.0) | q[sum(N) - 1]
+            for j in range(len(N)):
+                sfops.MeasureHomodyne(0.2) | q[starts[j] + (f["measure_offset"] % N[j])]
+        sf.Engine("gaussian").run(prog)
+    except Exception as ex:  # noqa
+        w.log("foreign_error", exc=type(ex).__name__, msg=str(ex)[:200])
+    finally:
+        simenv.rng.handler = saved
 
 
 def do_call(prog, h, simenv):
